@@ -767,6 +767,9 @@ def r15_8(ctx, prog, crate):
         return
     for b in (of, new, ins, wth):
         ctx.saw(b)
+    # AnyCounter::new decides the kind through the checked downcast: its contract is part of this clause
+    from rules.C17 import type_cast_rule
+    type_cast_rule(ctx, "R15.8", prog, crate)
     ctypes = sorted(norm(f["self"]) for f in prog.impls(crate) if f["trait"] == "counter::Counter")
     ctx.anchor("R15.8", "types implementing Counter", len(ctypes), 4)
 
